@@ -9,6 +9,7 @@ package main
 
 import (
 	"fmt"
+	"os"
 	"sort"
 	"strings"
 )
@@ -435,6 +436,35 @@ func (a *xAnalysis) operandVal(s *xState, o Operand) *Lin {
 func (a *xAnalysis) setReg(s *xState, reg string, v *Lin) {
 	if !isGPR(reg) {
 		return
+	}
+	// a pointer into the scratch block that was advanced by a copy and rewound by the copied length: when the facts of the
+	// path fix its offset to the start of a block, the pointer is that constant (keeps the states of the stages that follow
+	// apart from nothing but their facts, and lets the scratch discipline see which block a store clears)
+	if v != nil && a.contract != nil && a.contract.scratch != nil && len(v.T) > 1 {
+		for p, size := range a.contract.scratch {
+			bt := baseTerm(p)
+			if v.T[bt] != 1 {
+				continue
+			}
+			off := v.Sub(linTerm(bt, true))
+			gen := false
+			for k := range off.T {
+				if isGeneratedSym(k) {
+					gen = true
+				}
+			}
+			if !gen {
+				break
+			}
+			for cand := 0; cand+16 <= size; cand += 16 {
+				d := off.Sub(linConst(int64(cand)))
+				if ProveNonNeg(d, s.facts) && ProveNonNeg(d.Scale(-1), s.facts) {
+					v = linTerm(bt, true).Add(linConst(int64(cand)))
+					break
+				}
+			}
+			break
+		}
 	}
 	s.regs[reg] = v
 }
@@ -1051,6 +1081,15 @@ func (a *xAnalysis) paramJoin(o, s *xState) bool {
 			return false
 		}
 	}
+	// the gap-free prefixes recorded for streamed parameters belong to the path: states with different ones stay apart
+	if len(o.cov) != len(s.cov) {
+		return false
+	}
+	for k, v := range o.cov {
+		if w := s.cov[k]; w == nil || !w.Equal(v) {
+			return false
+		}
+	}
 	diff := map[string]int64{}
 	var g int64
 	cdiff := func(x, y *Lin) (int64, bool) { // y - x is a constant
@@ -1108,7 +1147,34 @@ func (a *xAnalysis) paramJoin(o, s *xState) bool {
 			keep = append(keep, f)
 		}
 	}
-	for _, f := range o.facts { // holds at t = 0; E + kappa*t must hold at t = g under s
+	// an equality is two inequalities (each may survive on its own, possibly shifted); a disequality survives only when
+	// both states have it
+	split := func(fs []Fact) []Fact {
+		var out []Fact
+		for _, f := range fs {
+			switch {
+			case f.Eq:
+				out = append(out, Fact{E: f.E}, Fact{E: f.E.Scale(-1)})
+			case f.Ne:
+			default:
+				out = append(out, f)
+			}
+		}
+		return out
+	}
+	for _, f := range o.facts {
+		if !f.Ne {
+			continue
+		}
+		for _, f2 := range s.facts {
+			if f2.Ne && (f2.E.Equal(f.E) || f2.E.Scale(-1).Equal(f.E)) {
+				add(f)
+				break
+			}
+		}
+	}
+	ofacts, sfacts := split(o.facts), split(s.facts)
+	for _, f := range ofacts { // holds at t = 0; E + kappa*t must hold at t = g under s
 		for _, kappa := range []int64{0, 1, -1} {
 			if ProveNonNeg(f.E.Add(linConst(kappa*g)), s.facts) {
 				add(Fact{E: f.E.Add(t.Scale(kappa))})
@@ -1116,7 +1182,7 @@ func (a *xAnalysis) paramJoin(o, s *xState) bool {
 			}
 		}
 	}
-	for _, f := range s.facts { // holds at t = g; E + kappa*(t - g) must hold at t = 0 under o
+	for _, f := range sfacts { // holds at t = g; E + kappa*(t - g) must hold at t = 0 under o
 		for _, kappa := range []int64{0, 1, -1} {
 			if ProveNonNeg(f.E.Add(linConst(-kappa*g)), o.facts) {
 				add(Fact{E: f.E.Add(t.Scale(kappa)).Add(linConst(-kappa * g))})
@@ -1586,15 +1652,49 @@ func (a *xAnalysis) handleLoop(l *xLoop, ins []*xState, record bool) map[xEdge][
 				F[i] = Fact{E: E.Add(linConst(-1))}
 			}
 		}
+		// the scratch statuses the body leaves behind (tracked in the recording runs only): joined into every exit state
+		bodyScr := map[string][]uint8{}
+		noteScr := func(ex map[xEdge][]*xState, bk []*xState) {
+			note := func(t *xState) {
+				for k, v := range t.scr {
+					if cur, ok := bodyScr[k]; ok {
+						for i := range cur {
+							if i < len(v) && v[i] > cur[i] {
+								cur[i] = v[i]
+							}
+						}
+					} else {
+						bodyScr[k] = append([]uint8(nil), v...)
+					}
+				}
+			}
+			for _, ss := range ex {
+				for _, t := range ss {
+					note(t)
+				}
+			}
+			for _, t := range bk {
+				note(t)
+			}
+		}
 		if record {
 			// first iteration
-			a.runRegion(l.blocks, l.header, []*xState{s.clone()}, l.header, true)
+			ex1, bk1 := a.runRegion(l.blocks, l.header, []*xState{s.clone()}, l.header, true)
+			noteScr(ex1, bk1)
 			// a later iteration: j+1 completed iterations before it, and the back-edge facts of iteration j hold
 			s1 := a.shift(s, ld, j.Add(linConst(1)))
 			shiftCov(s1, j.Add(linConst(1)))
 			s1.facts = append(s1.facts, F...)
 			if len(gBacks) > 0 && !a.contradictory(s1) {
-				a.runRegion(l.blocks, l.header, []*xState{s1}, l.header, true)
+				// the later iteration starts from what the first one left
+				for k, v := range bodyScr {
+					if s1.scr == nil {
+						s1.scr = map[string][]uint8{}
+					}
+					s1.scr[k] = append([]uint8(nil), v...)
+				}
+				ex2, bk2 := a.runRegion(l.blocks, l.header, []*xState{s1}, l.header, true)
+				noteScr(ex2, bk2)
 			}
 		}
 		// exits from a generic iteration n
@@ -1637,6 +1737,20 @@ func (a *xAnalysis) handleLoop(l *xLoop, ins []*xState, record bool) map[xEdge][
 					fmt.Printf("  loop exit %v: facts {%s} contradictory=%v\n", e, strings.Join(fs, "; "), a.contradictory(t))
 				}
 				if !a.contradictory(t) {
+					for k, v := range bodyScr {
+						if t.scr == nil {
+							t.scr = map[string][]uint8{}
+						}
+						if cur, ok := t.scr[k]; ok {
+							for i := range cur {
+								if i < len(v) && v[i] > cur[i] {
+									cur[i] = v[i]
+								}
+							}
+						} else {
+							t.scr[k] = append([]uint8(nil), v...)
+						}
+					}
 					out[e] = append(out[e], t)
 				}
 			}
@@ -1812,7 +1926,10 @@ func (a *xAnalysis) scratchAccess(s *xState, in *Instr, param string, size int, 
 	}
 	constOff := off.IsConst()
 	c := int(off.C)
-	if !constOff && load && width >= 16 {
+	if xDebug && os.Getenv("SMGO_SCR") != "" {
+		fmt.Printf("SCR %s %s off=%s w=%d load=%v store=%v st=%v\n", in.Pos, in.Raw, off.String(), width, load, store, st)
+	}
+	if !constOff && (load || store) && width >= 16 {
 		// the pointer was advanced by a copy loop and rewound: ask the facts of the path whether the offset is a block start
 		for cand := 0; cand+16 <= size; cand += 16 {
 			d := off.Sub(linConst(int64(cand)))
